@@ -34,16 +34,42 @@ def gen_arg(rng, sz):
 
 
 def gen_ops(rng, sz, n, writable=True, whences=(0, 0, 0, 1, 1, 2, 2, 3)):
+    """random history; an estimate of the position is tracked so that coincidences a wrapper might special-case are hit on purpose:
+    a relative seek BY the current position, an absolute seek TO it, seek(0, 2) at position 0"""
     ops = []
+    pos = 0
     for _ in range(n):
-        c = rng.randrange(10)
+        c = rng.randrange(11)
         if c < 4:
-            ops.append(['r', gen_arg(rng, sz)])
+            a = gen_arg(rng, sz)
+            ops.append(['r', a])
+            left = max(0, sz - pos)
+            pos += left if a < 0 else min(a, left)
         elif c < 7:
-            ops.append(['s', gen_arg(rng, sz), rng.choice(whences)])
-        elif c < 9 and writable:
+            a, w = gen_arg(rng, sz), rng.choice(whences)
+            ops.append(['s', a, w])
+            if w == 0 and a >= 0:
+                pos = a
+            elif w == 1:
+                pos = max(0, pos + a)
+            elif w == 2:
+                pos = max(0, sz + a)
+        elif c == 7:
+            k = rng.randrange(3)
+            if k == 0:
+                ops.append(['s', pos, 1])        # relative seek by exactly the current position
+                pos = pos + pos
+            elif k == 1:
+                ops.append(['s', pos, 0])        # absolute seek to where we are
+            else:
+                ops.append(['s', 0, 2] if pos == 0 else ['s', pos - sz, 2])
+                pos = sz if pos == 0 else pos
+            ops.append(['r', rng.choice([1, 5, 16, 17])])
+            pos += min(ops[-1][1], max(0, sz - pos))
+        elif c < 10 and writable:
             k = rng.choice([0, 1, 2, 3, 5, 16, 17, max(0, sz - 1), sz, sz + 2])
             ops.append(['w', pyenv.rbytes(rng, min(k, 64)).hex()])
+            pos += min(k, 64)
         else:
             ops.append(['t'])
     return ops
